@@ -5,6 +5,8 @@ import (
 	"time"
 
 	"simlens/plan"
+
+	"github.com/siglens/siglens/cmd/startup"
 	"simlens/simrt"
 )
 
@@ -32,6 +34,10 @@ func Exec(op *plan.Op) (interface{}, error) {
 		return nil, nil
 	case "query":
 		return Query(op)
+	case "shutdown":
+		// graceful shutdown: the shipped shutdown sequence (flushes buffers, closes the database)
+		startup.ShutdownSiglensServer(false)
+		return nil, nil
 	default:
 		if f, ok := extra[op.Kind]; ok {
 			return f(op)
